@@ -1,4 +1,5 @@
 PROP = {
+    "gen": ["setters", "pure"],
     "title": "Encoding any JSON-shaped Map or value as XML preserves all of its data",
     "run_modules": ["RunXml2"],
     "n": {"quick": 1300, "thorough": 40000},
